@@ -118,6 +118,9 @@ Demote ==
 
 \* report(q) / totalMemoryLeaks(q): pure queries
 Query == res' = "ok" /\ UNCHANGED <<bucket, period, stage, seq, live>>
+\* invalidateMemory(a): what operator delete / free call right before deallocMemory - looks the block up and overwrites its user bytes.
+\* It is a lookup: for a known, an unknown or an already released address alike the table stays as it is.
+Invalidate(a) == res' = "ok" /\ UNCHANGED <<bucket, period, stage, seq, live>>
 
 Next == \/ \E a \in Addrs, sz \in Sizes, k \in Kinds : Alloc(a, sz, k, 100 + seq)
         \/ \E a \in Addrs : Free(a) \/ FreeUnknown(a) \/ ReallocUnknown(a)
@@ -127,6 +130,7 @@ Next == \/ \E a \in Addrs, sz \in Sizes, k \in Kinds : Alloc(a, sz, k, 100 + seq
         \/ IncStage \/ DecStage \/ FreeStage
         \/ \E q \in Queries : Clear(q)
         \/ Demote \/ Query
+        \/ \E a \in Addrs : Invalidate(a)
 
 Spec == Init /\ [][Next]_vars
 
